@@ -31,9 +31,17 @@ const (
 	opSuspendResume
 	opTitleNotify
 	numMid
+	// requests left pending (no frame follows) and cursor requests in the terminal's own style: used on
+	// the covering set of profiles only
+	opCursorPending = iota - 1
+	opCursorDefaultFrame
+	opMouseShapePending
+	opHideCursorFrame
+	numMidExt
 )
 
-var midNames = []string{"frame", "ShowCursor+frame", "SetMouseShape+frame", "SetAppID", "Suspend+Resume", "SetTitle"}
+var midNames = []string{"frame", "ShowCursor+frame", "SetMouseShape+frame", "SetAppID", "Suspend+Resume", "SetTitle",
+	"ShowCursor(beam), no frame", "ShowCursor(default style)+frame", "SetMouseShape, no frame", "HideCursor+frame"}
 
 // endings
 const (
@@ -62,7 +70,9 @@ func (s shape) String() string {
 	return strings.Join(parts, " ")
 }
 
-func shapes(maxMid int) []shape {
+func shapes(maxMid int) []shape { return shapesOver(maxMid, numMid) }
+
+func shapesOver(maxMid, nOps int) []shape {
 	var out []shape
 	var rec func(prefix []int)
 	rec = func(prefix []int) {
@@ -72,7 +82,7 @@ func shapes(maxMid int) []shape {
 		if len(prefix) == maxMid {
 			return
 		}
-		for m := 0; m < numMid; m++ {
+		for m := 0; m < nOps; m++ {
 			rec(append(prefix, m))
 		}
 	}
@@ -159,6 +169,16 @@ func runSession(prof refterm.Profile, opts vaxis.Options, sh shape) {
 			frame()
 		case opMouseShape:
 			vx.SetMouseShape(vaxis.MouseShapeClickable)
+			frame()
+		case opCursorPending:
+			vx.ShowCursor(1, 0, vaxis.CursorBeam)
+		case opCursorDefaultFrame:
+			vx.ShowCursor(0, 1, vaxis.CursorDefault)
+			frame()
+		case opMouseShapePending:
+			vx.SetMouseShape(vaxis.MouseShapeTextInput)
+		case opHideCursorFrame:
+			vx.HideCursor()
 			frame()
 		case opAppID:
 			vx.SetAppID("verif-app")
@@ -271,7 +291,7 @@ func main() {
 	nProf := 1 << (refterm.NumGatingCaps + 2)
 	optSets := []vaxis.Options{{}, {DisableMouse: true}, {DisableKittyKeyboard: true}, {DisableMouse: true, DisableKittyKeyboard: true}}
 	allShapes := shapes(r.Pick(1, 2))
-	deepShapes := shapes(r.Pick(2, 3))
+	deepShapes := shapesOver(r.Pick(2, 3), numMidExt)
 	if r.Replay != "" {
 		r.ReplayBySearch()
 	}
@@ -357,7 +377,7 @@ func main() {
 	n := r.Get("sessions")
 	r.Finish(explore.Coverage{
 		States: -1, Transitions: n, Traces: n, Evaluations: n,
-		Rule:       "every profile of the gating capability space (2^12 capability subsets x 4 XTVERSION strings) x {DisableMouse} x {DisableKittyKeyboard} x every session New mid* end with |mid|<=bound over {frame, ShowCursor+frame, SetMouseShape+frame, SetAppID, Suspend+Resume, SetTitle} and end in {Close, Close Close, Suspend, Suspend Close, SIGTERM at a quiescent point}; deeper sessions on a pairwise-covering set of profiles with the reporting capabilities on; on the same covering set every session of the first family under six further option sets (ReportKeyboardEvents, three CSIuBitMask values, NoSignals, NoSignals+DisableMouse+ReportKeyboardEvents; no SIGTERM ending without handlers); distinct = (profile, option set) pairs whose sessions all passed",
+		Rule:       "every profile of the gating capability space (2^12 capability subsets x 4 XTVERSION strings) x {DisableMouse} x {DisableKittyKeyboard} x every session New mid* end with |mid|<=bound over {frame, ShowCursor+frame, SetMouseShape+frame, SetAppID, Suspend+Resume, SetTitle} and end in {Close, Close Close, Suspend, Suspend Close, SIGTERM at a quiescent point}; deeper sessions on a pairwise-covering set of profiles with the reporting capabilities on, over four more middle operations (ShowCursor and SetMouseShape left pending without a frame, ShowCursor in the terminal's own style + frame, HideCursor + frame); on the same covering set every session of the first family under six further option sets (ReportKeyboardEvents, three CSIuBitMask values, NoSignals, NoSignals+DisableMouse+ReportKeyboardEvents; no SIGTERM ending without handlers); distinct = (profile, option set) pairs whose sessions all passed",
 		Exhaustive: true,
 		Bounds:     map[string]any{"profiles": nProf, "option_sets": len(optSets), "shapes_all_profiles": len(allShapes), "shapes_covering_set": len(deepShapes), "covering_profiles": len(coveringSet())},
 		Assumptions: []string{
